@@ -331,7 +331,7 @@ static std::string bulk_ops(const toks_t& t, N n, const std::string& wrapk)
     return "OK " + changed(0x11);
   }
   uintptr_t src = parse_u64(t[2]);
-  bool src_in = rlbox::verif_region_of(reinterpret_cast<void*>(src)) >= 0;
+  bool src_in = rlbox::verif_region_of(reinterpret_cast<void*>(src)) != 0;
   if (t[0].rfind("memcpy", 0) == 0) {
     // source bytes differ from the fill so that the copy is visible
     if (src_in) {
